@@ -21,7 +21,7 @@ theorem frame (P : BState → Nat → Prop) (hP : FrameClosed P) (rules : List B
     ∃ s', blockTokenize rules maxNesting s startLine endLine = .ok s' ∧ s'.lines = s.lines ∧ s'.lineMax = s.lineMax
       ∧ s'.blkIndent = s.blkIndent ∧ s'.level = s.level := by
   obtain ⟨s', h, hf⟩ := C01.block_tokenize_total P hP rules hok hlast maxNesting s startLine endLine hlen hend hPs
-  exact ⟨s', h, hf.1, hf.2.1, hf.2.2.1, hf.2.2.2⟩
+  exact ⟨s', h, hf.1.1, hf.2.1, hf.2.2.1, hf.2.2.2⟩
 
 /-- **C07.stages** — the blocks of a document are emitted in stages with increasing, disjoint line
 ranges (C03.loop_maps_staged): the tokens of a later block never reach back into the lines of an
